@@ -31,25 +31,25 @@ def main():
     demos = [f for f in os.listdir(src) if f.endswith("_test.go")]
     # demo on the clean tree
     import re
-    pkg = "."
+    pkgof = {}
     for f in demos:
         m = re.search(r"^package\s+(\w+)", open(os.path.join(src, f)).read(), re.M)
-        if m and m.group(1) in ("datafile", "index", "fio", "datatype", "utils"):
-            pkg = "./" + m.group(1)
+        pkgof[f] = "./" + m.group(1) if m and m.group(1) in ("datafile", "index", "fio", "datatype", "utils") else "."
+    pkg = " ".join(sorted(set(pkgof.values())))
     for f in demos:
-        shutil.copy(os.path.join(src, f), os.path.join(W, pkg, "zz_seed_" + f))
-    tags = "-tags verif" if any("verif" in f for f in demos) else ""
-    rc0, o0 = sh("go test %s -vet=off -count=1 -run 'TestDemo|TestSeed' %s 2>&1 | tail -15" % (tags, pkg))
+        shutil.copy(os.path.join(src, f), os.path.join(W, pkgof[f], "zz_seed_" + f))
+    tags = "-tags verif" if any("verif" in f or "go:build verif" in open(os.path.join(src, f)).read() for f in demos) else ""
+    rc0, o0 = sh("go test %s -vet=off -count=1 -run 'Demo|Seed' %s 2>&1 | tail -15" % (tags, pkg))
     clean_pass = "ok" in o0 and "FAIL" not in o0
     rc, o = sh("git apply %s" % patch)
     if rc != 0:
         print("patch does not apply:", o)
         return 1
     rcb, ob = sh("go build ./... && go build -tags verif ./...")
-    rc1, o1 = sh("go test %s -vet=off -count=1 -run 'TestDemo|TestSeed' %s 2>&1 | tail -25" % (tags, pkg))
+    rc1, o1 = sh("go test %s -vet=off -count=1 -run 'Demo|Seed' %s 2>&1 | tail -25" % (tags, pkg))
     demo_fails = "FAIL" in o1
     for f in demos:
-        os.remove(os.path.join(W, pkg, "zz_seed_" + f))
+        os.remove(os.path.join(W, pkgof[f], "zz_seed_" + f))
     rcs, os_ = sh("go test -vet=off -count=1 ./... 2>&1 | tail -12")
     suite_green = "FAIL" not in os_ and rcb == 0
     sh("git checkout -- . && git clean -fdq")
